@@ -97,7 +97,7 @@ func (l *enumValueLoader) commentEnd(lex lexeme.LexEvent) {
 
 	// A comment in front of the first value belongs to no value.
 	if l.lastIdx < l.enumConstraint.Len() {
-		l.enumConstraint.SetComment(l.lastIdx, lex.Value().String())
+		l.enumConstraint.SetComment(l.lastIdx, lex.Value().TrimSpaces().String())
 	}
 	l.stateFunc = l.annotationEnd
 }
